@@ -20,7 +20,8 @@ C02_Pool == {
   <<"SP", "SP", "SP", "HY", "SP", "a">>,               \* 3 spaces: not a multiple of the unit 2
   <<"SP", "TAB", "HY", "SP", "a">>,                    \* mixes tabs and spaces
   <<"SH", "SP", "a">>,                                 \* heading root
-  <<"SH", "SH", "SP">>                                 \* heading with empty text
+  <<"SH", "SH", "SP">>,                                \* heading with empty text
+  <<"WS", "HY", "SP", "a">>                            \* indented with another Unicode white space (grey: no verdict; the builds must still agree)
 }
 C02_Names == { <<"a">> }
 C02_Sigma == { [unit |-> <<>>, heading |-> FALSE, crlf |-> FALSE, bullets |-> {}, blanks |-> FALSE] }
